@@ -4,12 +4,19 @@ package processor
 
 import (
 	"bytes"
+	"context"
 	"fmt"
 	"sort"
 	"testing"
 	"time"
 
+	"github.com/alephium/wormhole-fork/node/pkg/common"
+	gossipv1 "github.com/alephium/wormhole-fork/node/pkg/proto/gossip/v1"
+	"github.com/alephium/wormhole-fork/node/pkg/reporter"
+	"github.com/alephium/wormhole-fork/node/pkg/vaa"
 	vh "github.com/alephium/wormhole-fork/node/zzverif"
+	"go.uber.org/zap"
+	"google.golang.org/protobuf/proto"
 	"pgregory.net/rapid"
 )
 
@@ -421,4 +428,97 @@ func runC14Long(c c14Case) (*vh.Violation, vh.Outcome) {
 		o.Labels = append(o.Labels, "slow-case")
 	}
 	return v, o
+}
+
+// C14 through the real run loop: the schedule is driven by the loop's 30 s cleanup ticks, and those must keep coming
+// while gossip keeps arriving. One entry the node signed six minutes ago waits for its retry; observations arrive at
+// a generated pace (always well under 30 s apart) until the first tick is due. The hard-coded period makes this the
+// one unit that has to wait in real time (about 31 s).
+func TestVerif_C14_RunLoopTicks(t *testing.T) {
+	pl := vh.NewPlain(t, "C14")
+	defer pl.Flush()
+	type tc struct {
+		TrafficMs int `json:"traffic_every_ms"`
+	}
+	cases := []tc{{700}}
+	if vh.Thorough() {
+		cases = []tc{{50}, {700}, {5000}}
+	}
+	var rc tc
+	if pl.ReplayCase(&rc) {
+		cases = []tc{rc}
+	}
+	results := make(chan *vh.Violation, len(cases))
+	for _, c := range cases {
+		go func(c tc) {
+			d, sctx := fixtures()
+			e := &penv{d: d, ctx: sctx, ownKey: ownKeyIdx, byBody: map[string]int{}, setByIdx: map[uint32]*setInfo{}, shadow: map[string][]byte{}, ids: map[string]vaa.VAAID{}}
+			e.govAddr = nsAddr(0, 9)
+			lockC := make(chan *common.MessagePublication)
+			setC := make(chan *common.GuardianSet)
+			injectC := make(chan *vaa.VAA)
+			signedInC := make(chan *gossipv1.SignedVAAWithQuorum)
+			e.sendC = make(chan []byte, 8192)
+			e.obsvC = make(chan *gossipv1.SignedObservation, 64)
+			e.reqC = make(chan *gossipv1.ObservationRequest, 50)
+			gst := common.NewGuardianSetState(nil)
+			created := time.Now()
+			e.p = NewProcessor(sctx, d, lockC, setC, e.sendC, e.obsvC, e.reqC, injectC, signedInC, poolSigner{vh.Key(e.ownKey)}, gst, reporter.EventListener(zap.NewNop()), nil, govChain, e.govAddr)
+			e.p.logger = zap.NewNop()
+			// state before the loop starts: a set of three with the node in it, one message observed six minutes ago
+			ms := msgSpec{IDSel: 0, Chain: 2, TC: 0, Seq: uint64(900000 + c.TrafficMs), Ts: 1700000000, PLen: 8, PSeed: uint64(c.TrafficMs)}
+			m := e.mkMsg(ms)
+			e.msgs = append(e.msgs, m)
+			e.ids[m.id.ToString()] = m.id
+			e.applySet(3, 0, 0, 1)
+			e.p.handleMessage(sctx, m.pub)
+			for _, s := range e.p.state.vaaSignatures {
+				s.firstObserved = s.firstObserved.Add(-6 * time.Minute)
+				s.settled = true // the 30 s settlement pass is behind it: the next tick is a retry tick
+			}
+			for len(e.sendC) > 0 {
+				<-e.sendC
+			}
+			ctx, cancel := context.WithCancel(sctx)
+			done := make(chan struct{})
+			go func() { defer close(done); _ = e.p.Run(ctx) }()
+			defer func() { cancel(); <-done }()
+			garbage := &gossipv1.SignedObservation{Hash: []byte{1}, Signature: []byte{2}, Addr: []byte{3}}
+			retried := false
+			deadline := created.Add(50 * time.Second)
+			next := time.Now()
+			for time.Now().Before(deadline) && !retried {
+				if time.Now().After(next) {
+					select {
+					case e.obsvC <- garbage:
+					default:
+					}
+					next = next.Add(time.Duration(c.TrafficMs) * time.Millisecond)
+				}
+				select {
+				case b := <-e.sendC:
+					var g gossipv1.GossipMessage
+					if proto.Unmarshal(b, &g) == nil && g.GetSignedObservation() != nil {
+						retried = true
+					}
+				case <-e.reqC:
+					retried = true
+				case <-time.After(5 * time.Millisecond):
+				}
+			}
+			if !retried {
+				results <- vh.V("C14/no-cleanup-tick-under-traffic", "observations arrived every %d ms for %v after the processor was created: no cleanup tick re-broadcast the six-minute-old pending observation or asked for its re-observation (the tick period is 30 s)", c.TrafficMs, time.Since(created).Round(time.Second))
+				return
+			}
+			results <- nil
+		}(c)
+	}
+	for i, c := range cases {
+		v := <-results
+		_ = i
+		pl.Record(c, vh.Outcome{NonTrivial: true, Labels: []string{"run-loop-tick"}})
+		if v != nil {
+			pl.Violate(v, c)
+		}
+	}
 }
